@@ -84,6 +84,8 @@ type Config struct {
 	Limits mint.MintLimits
 	MPP    bool
 	FeeFn  func(uint64) uint64 `json:"-"`
+	// ViaHTTP binds the operations to the mint server's HTTP handler instead of the Go API (api.go)
+	ViaHTTP bool
 }
 
 type W struct {
@@ -117,6 +119,7 @@ type W struct {
 	// RestoreBatch is the fixed batch of blinded messages of the hrestore operation (byte-identical every time): the
 	// B_ of the next outputs the client will produce, fixed when the operation is first used; HRestores counts its uses
 	RestoreBatch       cashu.BlindedMessages
+	httpN              int // makes request bodies unique in ViaHTTP mode
 	HRestores          int
 	hrestoreSignedThen int
 	// InfoReadWhileDisabled: the info endpoint was read on this mint instance while minting was disabled
